@@ -1379,7 +1379,6 @@ class LangServer:
             # tmp_file.ast.resolve_links(self.obj_tree, self.link_version)
         elif file_obj.preproc:
             file_obj.preprocess(pp_defs=self.pp_defs)
-            self.pp_defs = {**self.pp_defs, **file_obj.pp_defs}
 
     def serve_onOpen(self, request: dict):
         self.serve_onSave(request, did_open=True)
@@ -1474,9 +1473,6 @@ class LangServer:
             ast_new = file_obj.parse(
                 pp_defs=self.pp_defs, include_dirs=self.include_dirs
             )
-            # Add the included read in pp_defs from to the ones specified in the
-            # configuration file
-            self.pp_defs = {**self.pp_defs, **file_obj.pp_defs}
         except:
             log.error("Error while parsing file %s", filepath, exc_info=True)
             return False, "Error during parsing"  # Error during parsing
